@@ -102,7 +102,7 @@ class Harness:
     def nontrivial(self, unit, inp, real):
         return True
 
-    def make_domain(self):
+    def make_domain(self, unit=None):
         return domain_U() if self.domain == 'U' else domain_D()
 
     # -- helpers for subclasses
@@ -180,7 +180,7 @@ def run_task(prop, unit, prefixes, slice_s, validate=True):
     Returns a JSON-able result dict including the unexplored prefixes."""
     from . import instr
     h = load_harness(prop)
-    dom = h.make_domain()
+    dom = h.make_domain(unit)
     eng = Engine(dom, step_limit=h.step_limit)
     res = {
         'unit': unit, 'paths': 0, 'classes': {}, 'violations': [], 'witnesses': 0,
